@@ -66,7 +66,15 @@ func cmdDump(args []string) int {
 	repo := fs.String("repo", "/repo", "repository")
 	fn := fs.String("func", "", "function (pkg.Name)")
 	fs.Parse(args)
-	w, err := LoadWorld(*repo, nil)
+	var extra []string
+	if ents, err := os.ReadDir("/verif/foxvc/externs"); err == nil {
+		for _, e := range ents {
+			if strings.HasSuffix(e.Name(), ".spec") {
+				extra = append(extra, filepath.Join("/verif/foxvc/externs", e.Name()))
+			}
+		}
+	}
+	w, err := LoadWorld(*repo, extra)
 	if err != nil {
 		fmt.Fprintln(os.Stderr, err)
 		return 2
